@@ -1321,7 +1321,11 @@ def run_check(ck, which: str) -> None:  # noqa: C901, PLR0912, PLR0915
     # ---- 1. histories: corpus, random (valid + malformed streams), exhaustive small scope for the containers
     hists: list[list[dict]] = []
     tags: list[str] = []
+    corpus_oracle_only = []
     for ops in load_corpus("C01") + load_corpus("C06"):
+        if any(o[0].startswith("X_") for o in ops):
+            corpus_oracle_only.append(ops)           # contains calls outside the Coq model: oracle only (step 4b)
+            continue
         hists.append(run_history(ops)["steps"])
         tags.append("corpus")
     n_rand = 300 if not ck.thorough else 3000
@@ -1424,10 +1428,13 @@ def run_check(ck, which: str) -> None:  # noqa: C901, PLR0912, PLR0915
             report([s["op"] for s in st], len(st) - 1, st[-1], st[-1])
     # ---- 4b. rejected edits spanning several graphs: nested sort with one cyclic scope, multi-graph convenience calls
     n_mg = 300 if not ck.thorough else 3000
-    for i in range(n_mg):
+    for i in range(-len(corpus_oracle_only), n_mg):
+        if i < 0:
+            ops = corpus_oracle_only[i]
         gen = (gen_nested_sort, gen_slices, gen_multi_rename, gen_refused_names, gen_multi_rau, gen_slices,
                gen_nested_sort, gen_slices, gen_multi_rename, gen_refused_names)[i % 10]
-        ops = gen(rng)
+        if i >= 0:
+            ops = gen(rng)
         st = run_history(ops)["steps"]
         ck.count(len(st))
         if len(st) == len(ops):
